@@ -16,7 +16,7 @@ import (
 func init() {
 	Register(&Spec{
 		ID:          "C12",
-		Explanation: "Decides structural necessary conditions of ordered, capped, exactly-once local delivery: (R1) lock balance in package server on every CFG path, guarded-by for the Server/answerQueue/structReturner/returnEmbargoer fields, no application code (Method.Impl, Returner, Shutdowner, ReleaseArgs) and no blocking under Server.mu; (R2) the delivery gate Server.starting, once set, is cleared and its channel closed on every path out of start; (R3) the statement that occupies a slot is reached from every acquisition of Server.mu only through a test of srv.drain, with a slot index obtained from nextID; (R4) the call goroutine clears its slot, wakes a waiting start and closes drain only when draining and empty; (R5) every function that receives a capnp.Recv consumes its Returner exactly once on every path, the call goroutine returns exactly once; (R6) the user's Shutdown runs only after the drain wait and a second Shutdown panics. (R2b) after the call goroutine is started, every case of the wait that precedes the release of the delivery gate receives from one of the call's own channels (ack, done). (R5c) base.recv of a draining answer queue is read only on paths that have received from the base's ready channel. (R7) the configured MaxConcurrentCalls is replaced only where it is < 1, and the slot table has exactly that many slots. (R8) the answer queue is settled before Returner.Return (shared with C11-R10). Does NOT decide ordering or the concurrency cap as numeric invariants over timings.",
+		Explanation: "Decides structural necessary conditions of ordered, capped, exactly-once local delivery: (R1) lock balance in package server on every CFG path, guarded-by for the Server/answerQueue/structReturner/returnEmbargoer fields, no application code (Method.Impl, Returner, Shutdowner, ReleaseArgs) and no blocking under Server.mu; (R2) the delivery gate Server.starting, once set, is cleared and its channel closed on every path out of start; (R3) the statement that occupies a slot is reached from every acquisition of Server.mu only through a test of srv.drain, with a slot index obtained from nextID; (R4) the call goroutine clears its slot, wakes a waiting start and closes drain only when draining and empty; (R5) every function that receives a capnp.Recv consumes its Returner exactly once on every path, the call goroutine returns exactly once; (R6) the user's Shutdown runs only after the drain wait and a second Shutdown panics. (R2b) after the call goroutine is started, every case of the wait that precedes the release of the delivery gate receives from one of the call's own channels (ack, done). (R5c) base.recv of a draining answer queue is read only on paths that have received from the base's ready channel. (R7) the configured MaxConcurrentCalls is replaced only where it is < 1, and the slot table has exactly that many slots. (R8) the answer queue is settled before Returner.Return (shared with C11-R10). (R9) the base index that queueCaller.PipelineRecv hands out for the entry it has just queued is the index at which fulfill stores that entry's result. Does NOT decide ordering or the concurrency cap as numeric invariants over timings.",
 		Run:         runC12,
 	})
 }
@@ -43,8 +43,10 @@ func runC12(ctx *Ctx) {
 	ruleCapAsConfigured(ctx, "C12-R7")
 	ruleBaseUsedAfterReady(ctx, "C12-R5c")
 	ruleQueueSettledBeforeReturn(ctx, "C12-R8")
+	ruleQueuedBasisMatchesDrain(ctx, "C12-R9")
 	r := ctx.Rep
 	r.Floor("C12-R5c", 1)
+	r.Floor("C12-R9", 3)
 	r.Floor("C12-R7", 2)
 	r.Floor("C12-R5b", 1)
 	r.Floor("C12-R1", 30)
